@@ -1,13 +1,13 @@
-(* Extraction of the executable model (Model/* only — independent of Proofs).
+(* Extraction of the executable model (Model/* and the executable path search of Spec/ChainSpec — independent of Proofs).
    ExtrOcamlBasic only: bool/option/list/prod/unit/sumbool/sum map to OCaml natives;
    Z / positive / nat stay the extracted inductives.  No Extract Constant. *)
 From Coq Require Extraction ExtrOcamlBasic.
 From PW Require Import Model.Base Model.SigTypes Model.Base64 Model.Utf8 Model.Cbor Model.Json Model.AuthData
-  Model.Oracles Model.ClientData Model.CredJson Model.Cose Model.SigAlg Model.VerifyAuth Model.Tpm Model.Formats Model.VerifyReg Model.Options Model.OptionsJson.
+  Model.Oracles Model.ClientData Model.CredJson Model.Cose Model.SigAlg Model.VerifyAuth Model.Tpm Model.Formats Model.VerifyReg Model.Options Model.OptionsJson Spec.ChainSpec.
 Extraction Language OCaml.
 Extraction "model.ml" b64url_enc b64url_dec b64std_enc be_int slice
   cbor_loads cbor_enc parse_auth_data parse_backup_flags aaguid_to_string
   parse_client_data parse_auth_cred_json parse_reg_cred_json decode_credential_public_key to_crypto
   verify_signature hash_by_alg verify_auth counter_ok rp_step bind
   verify_reg parse_cert_info parse_pub_area attr_bit attr_positions timestamp_ok manufacturer_known
-  gen_reg gen_auth creation_options_json request_options_json parse_reg_options_json parse_auth_options_json.
+  gen_reg gen_auth creation_options_json request_options_json parse_reg_options_json parse_auth_options_json chain_acceptable_b.
